@@ -13,22 +13,34 @@ BASES = [("unsigned int", 32, False), ("int", 32, True), ("unsigned char", 8, Fa
          ("short", 16, True), ("unsigned long long", 64, False), ("long long", 64, True), ("bool", 1, False), ("unsigned long", 64, False)]
 
 
-def gen(rng):
-    """list of members: ("bf", name, ctype, bits, signed, width) | ("sep", ctype) | ("plain", name, ctype) | ("dep", name, decl)"""
+def gen(rng, uniform=True):
+    """list of members: ("bf", name, ctype, bits, signed, width) | ("sep", ctype) | ("plain", name, ctype) | ("dep", name, decl)
+    uniform: all bit-fields of the record have base types of one size and there are no zero-width separators — the shapes for which
+    bindgen's own unit computation (no clang offsets inside templates) agrees with the Itanium layout on the unchanged tree; mixed shapes
+    are a recorded finding with its own reproducer."""
     ms = []
-    if rng.random() < 0.6:
+    bases = BASES
+    if uniform:
+        size = rng.choice([8, 16, 32, 32, 64])
+        bases = [b for b in BASES if b[1] == size]
+        if rng.random() < 0.7:
+            bases = [b for b in bases if not b[2]] or bases
+    if uniform:
+        # an 8-aligned first member gives the record its alignment (bindgen gives a template's bit-field unit no alignment of its own)
+        ms.append(("dep", "owner", rng.choice(["T *owner;", "T *owner[2];"])))
+    elif rng.random() < 0.6:
         ms.append(("dep", "owner", rng.choice(["T *owner;", "T owner;", "T *owner[2];"])))
     n = rng.randint(1, 10)
     nb = 0
     for j in range(n):
         r = rng.random()
-        if r < 0.08 and nb:
-            ms.append(("sep", rng.choice(BASES)[0]))
+        if r < 0.08 and nb and not uniform:
+            ms.append(("sep", rng.choice(bases)[0]))
             continue
         if r < 0.2:
-            ms.append(("plain", "p%d" % j, rng.choice(["int", "char", "short", "long"])))
+            ms.append(("plain", "p%d" % j, "long" if uniform else rng.choice(["int", "char", "short", "long"])))
             continue
-        c, bits, signed = rng.choice(BASES)
+        c, bits, signed = rng.choice(bases)
         mode = rng.random()
         if mode < 0.25:
             # fill exactly the rest of the current unit of this type where possible
@@ -48,7 +60,7 @@ def gen(rng):
     if nb == 0:
         ms.append(("bf", "b_only", "unsigned int", 32, False, rng.randint(1, 32)))
     if rng.random() < 0.3:
-        ms.append(("plain", "tail", rng.choice(["char", "int"])))
+        ms.append(("plain", "tail", "long" if uniform else rng.choice(["char", "int"])))
     return ms
 
 
@@ -106,9 +118,9 @@ def cpp_prog(ms, bfs, vecs):
     return "\n".join(out) + "\n"
 
 
-def rs_prog(bpath, ms, bfs, vecs, rname, via):
+def rs_prog(bpath, ms, bfs, vecs, rname, via, generic=True):
     """via: 'set' (setters), 'raw' (raw setters through a pointer), 'ctor' (new_bitfield_N; fill 0 only, other bits are not preserved by design)"""
-    out = ['#![allow(warnings)]', 'mod b { include!("%s"); }' % bpath, "type RI = b::%s<::std::os::raw::c_int>;" % rname,
+    out = ['#![allow(warnings)]', 'mod b { include!("%s"); }' % bpath, ("type RI = b::%s<::std::os::raw::c_int>;" if generic else "type RI = b::%s;") % rname,
            "fn dump(r: &RI) { let p = r as *const RI as *const u8; for i in 0..::std::mem::size_of::<RI>() { print!(\"{:02x}\", unsafe { *p.add(i) }); } println!(\"\"); }",
            "fn main() { unsafe {", '  println!("SIZE {} {}", ::std::mem::size_of::<RI>(), ::std::mem::align_of::<RI>());']
     for vi, vec in enumerate(vecs):
@@ -134,10 +146,23 @@ def rs_prog(bpath, ms, bfs, vecs, rname, via):
     return "\n".join(out) + "\n"
 
 
-def case(chk, i):
+REPRO = [
+    # bindgen computes the units of a template's bit-fields itself (clang reports no offsets there); for mixed base types, zero-width
+    # separators, plain members in front of a run, or records without another aligned member the result deviates from the C++ layout
+    ("tmpl-repro-mixed", [("bf", "b0", "bool", 1, False, 1), ("sep", "unsigned int"), ("bf", "b2", "unsigned int", 32, False, 14),
+                          ("bf", "b3", "unsigned char", 8, False, 8), ("bf", "b4", "unsigned long long", 64, False, 38), ("plain", "tail", "int")]),
+    ("tmpl-repro-unaligned-unit", [("bf", "b0", "unsigned long", 64, False, 46), ("bf", "b1", "unsigned long long", 64, False, 18)]),
+    ("tmpl-repro-run-after-char", [("plain", "p0", "char"), ("bf", "b1", "unsigned int", 32, False, 32), ("bf", "b2", "unsigned int", 32, False, 30),
+                                   ("plain", "p3", "long"), ("bf", "b4", "unsigned int", 32, False, 32)]),
+]
+
+
+def case(chk, i, fixed=None):
     rng = chk.rng("tmpl", i)
     ms = gen(rng)
     packed = rng.random() < 0.15
+    if fixed is not None:
+        ms, packed = fixed[1], False
     # packed runs wider than 64 bits are the recorded unit-span-over-64 finding (C03 part a/b own it): keep them out of this family
     run_bits, worst = 0, 0
     for m in ms:
@@ -151,7 +176,7 @@ def case(chk, i):
             os.unlink(os.path.join(d, f))
         except OSError:
             pass
-    name = "tmpl-%d" % i
+    name = "tmpl-%d" % i if fixed is None else fixed[0]
     text = header(ms, packed)
     hdr = write(os.path.join(d, "t.hpp"), text)
     bfs, vecs = vectors(rng, ms)
@@ -181,7 +206,7 @@ def case(chk, i):
     for via in ("set", "raw"):
         if via == "raw" and "_raw(" not in btext:
             continue
-        src = rs_prog(b, ms, bfs, vecs, "R", via)
+        src = rs_prog(b, ms, bfs, vecs, "R", via, generic=bool(re.search(r"pub struct R\s*<", btext)))
         prs = write(os.path.join(d, "r_%s.rs" % via), src)
         exe = os.path.join(d, "r_%s" % via)
         rc, so, se, _ = sh(["rustc"] + RUSTC_FLAGS + [prs, "-o", exe], timeout=300)
@@ -235,7 +260,10 @@ def case(chk, i):
         v = [r for r in results if r[0] == "violation"]
         unknown = [r for r in v if r[2] is None]
         pick = (unknown or v)[0]
-        return Verdict(VIOLATED, name, pick[1][:1800], files=files, obs=obs, signature=pick[2])
+        sig = pick[2]
+        if fixed is not None:
+            sig = "c03.template-bitfield-own-layout"
+        return Verdict(VIOLATED, name, pick[1][:1800], files=files, obs=obs, signature=sig)
     if "inconclusive" in kinds or not results:
         return Verdict(INCONCLUSIVE, name, ([r[1] for r in results if r[0] == "inconclusive"] or ["no accessor form available"])[0], obs=obs)
     return Verdict(HELD, name, obs=obs, nontrivial=True, key=name)
@@ -243,3 +271,4 @@ def case(chk, i):
 
 def run_c(chk):
     chk.map(lambda i: case(chk, i), range(chk.pick(24, 400)), budget_s=chk.pick(300, 1500))
+    chk.map(lambda t: case(chk, 10 ** 6 + t[0], fixed=t[1]), list(enumerate(REPRO)))
